@@ -211,7 +211,7 @@ LeafAttempt(it, R, envv, acc0) ==
        THEN [res |-> IF acc0[it.id] = <<>> THEN "ehard" ELSE "miss", v |-> "NONE", used |-> {}, left |-> 0, all |-> FALSE]
        ELSE [res |-> "ok", used |-> {}, left |-> 0, all |-> FALSE,
              v |-> IF it.kind = "switch" THEN TRUE
-                   ELSE IF it.kind # "arg" THEN "U"
+                   ELSE IF it.kind # "arg" THEN (IF it.arity = "count" THEN [count |-> 1] ELSE IF it.arity \in {"many", "some"} THEN <<"U">> ELSE "U")
                    ELSE IF it.arity \in {"many", "some"} THEN <<Conv(it, ev)>>
                    ELSE IF it.arity = "opt" THEN [some |-> Conv(it, ev)] ELSE Conv(it, ev)]
   ELSE IF it.kind = "arg" /\ it.arity \in {"many", "some"}
@@ -219,6 +219,12 @@ LeafAttempt(it, R, envv, acc0) ==
        IF \E i \in DOMAIN occ : BadValue(it, occ[i].v) THEN [res |-> "hard", v |-> "NONE", used |-> {}, left |-> 0, all |-> TRUE]
        ELSE IF occ = <<>> THEN [res |-> IF it.arity = "some" THEN "miss" ELSE "ok", v |-> <<>>, used |-> {}, left |-> 0, all |-> TRUE]
        ELSE [res |-> "ok", v |-> [i \in DOMAIN occ |-> Conv(it, occ[i].v)], used |-> {it.id}, left |-> occ[1].p, all |-> TRUE]
+  ELSE IF it.kind = "reqflag" /\ it.arity \in {"many", "some", "count"}
+  THEN \* ... and so does a repeated or counted flag
+       IF occ = <<>> THEN [res |-> IF it.arity = "some" THEN "miss" ELSE "ok", used |-> {}, left |-> 0, all |-> TRUE,
+                           v |-> IF it.arity = "count" THEN [count |-> 0] ELSE <<>>]
+       ELSE [res |-> "ok", used |-> {it.id}, left |-> occ[1].p, all |-> TRUE,
+             v |-> IF it.arity = "count" THEN [count |-> Len(occ)] ELSE [i \in DOMAIN occ |-> "U"]]
   ELSE IF occ = <<>>
   THEN IF it.kind = "switch" THEN [res |-> "ok", v |-> FALSE, used |-> {}, left |-> 0, all |-> FALSE]
        ELSE IF it.arity = "opt" THEN [res |-> "ok", v |-> "NONE", used |-> {}, left |-> 0, all |-> FALSE]
